@@ -1262,6 +1262,20 @@ def rule_PL(run: Run) -> RuleResult:
         raise AnalysisError(f"R-PL: only {n_st} attribute stores found")
     if not _unpicklable_value(repo, next(iter(repo.modules.values())), ast.parse("types.MappingProxyType({}) if x else y", mode="eval").body):
         raise AnalysisError("R-PL: the detector no longer sees its positive example")
+    # what is pickled is the instance dictionary: a class that takes a hand in it (__getstate__ / __setstate__ / __reduce__ / __reduce_ex__ /
+    # __getnewargs__ / __copy__ / __deepcopy__) is one of the reviewed ones — the classes that hold a lock.  A new hook (functions stored
+    # by reference and looked up again on load, say) decides by itself what the copy is made of, and is reported for a look
+    HOOKS = ("__getstate__", "__setstate__", "__reduce__", "__reduce_ex__", "__getnewargs__", "__getnewargs_ex__", "__copy__", "__deepcopy__")
+    for c in repo.classes.values():
+        if c.module.name.startswith("labrea.mypy") or not (c.is_subclass_of("Evaluatable") or c.is_subclass_of("Effect") or c.is_subclass_of("Cache")):
+            continue
+        own = [h_ for h_ in HOOKS if h_ in c.methods]
+        if not own:
+            continue
+        holds_lock = bool(_lock_attrs(repo, c))
+        res.add(f"{c.qualname}:pickling hooks {own} only where a lock has to be dropped", holds_lock, c.module.relpath, c.methods[own[0]].lineno,
+                "the class holds a lock (its hooks are judged above)" if holds_lock else
+                f"{c.name} defines {own} although its instances hold nothing pickle refuses: what a copy is made of is decided by hand here", nec)
     # node classes rely on default instance pickling: no __slots__, no __reduce__ surprises
     for c in run.node_classes():
         bad = [a for a in ("__slots__",) if a in c.class_assigns]
@@ -1476,6 +1490,29 @@ def rule_GA(run: Run) -> RuleResult:
                 "guarded" if guarded else f"reads instance state (`{ast.unparse(stmts[0])[:50]}`…) for any name, including __setstate__", nec)
     if n == 0:
         res.add("labrea:no class defines __getattr__", True, "", 0, "", nec, trivial=True)
+    # __getattr__ is asked only when normal look-up fails: an attribute attached to a class of the library from outside its body
+    # (``Evaluatable.when = _when`` at the bottom of another module) is found first on every instance of every subclass — a Namespace
+    # member of that name is shadowed by it (C04: options grouped in a namespace behave like the fully-qualified Options)
+    attached = []
+    for m in repo.modules.values():
+        if m.name.startswith("labrea.mypy"):
+            continue
+        for x in ast.walk(m.tree):
+            tgts = x.targets if isinstance(x, ast.Assign) else ([x.target] if isinstance(x, (ast.AnnAssign, ast.AugAssign)) else [])
+            for t in tgts:
+                if isinstance(t, ast.Attribute) and isinstance(t.value, (ast.Name, ast.Attribute)) and not t.attr.startswith("__"):
+                    kc_ = repo.resolve_class(m, t.value)
+                    if kc_ is not None and (kc_.is_subclass_of("Evaluatable") or kc_.name == "Evaluatable"):
+                        attached.append((m, x.lineno, kc_.name, t.attr))
+            if isinstance(x, ast.Call) and isinstance(x.func, ast.Name) and x.func.id == "setattr" and len(x.args) == 3 and isinstance(x.args[0], (ast.Name, ast.Attribute)):
+                kc_ = repo.resolve_class(m, x.args[0])
+                if kc_ is not None and (kc_.is_subclass_of("Evaluatable") or kc_.name == "Evaluatable"):
+                    nm_ = x.args[1].value if isinstance(x.args[1], ast.Constant) else "…"
+                    attached.append((m, x.lineno, kc_.name, str(nm_)))
+    for m_, ln_, cn_, an_ in attached:
+        res.add(f"{m_.name}:attaches {cn_}.{an_} from outside the class body", False, m_.relpath, ln_,
+                f"{cn_}.{an_} = …: found by normal attribute look-up on every {cn_}, so a namespace member called '{an_}' is never reached through __getattr__", nec)
+    res.add("labrea:attaches no attribute to an expression class from outside its body", not attached, "labrea/types.py", 1, f"{len(attached)} such assignments", nec, trivial=not attached)
     return res
 
 
@@ -1636,8 +1673,13 @@ def rule_GS(run: Run) -> RuleResult:
         if m.name.startswith("labrea.mypy"):
             continue
         for name, v in m.names.items():
-            if v[0] == "var" and isinstance(v[1], ast.Call) and ast.unparse(v[1].func).split(".")[-1] in ("local", "ContextVar") \
-                    and ("threading" in ast.unparse(v[1].func) or "contextvars" in ast.unparse(v[1].func) or ast.unparse(v[1].func) in ("local", "ContextVar")):
+            is_tl = v[0] == "var" and isinstance(v[1], ast.Call) and ast.unparse(v[1].func).split(".")[-1] in ("local", "ContextVar") \
+                and ("threading" in ast.unparse(v[1].func) or "contextvars" in ast.unparse(v[1].func) or ast.unparse(v[1].func) in ("local", "ContextVar"))
+            if not is_tl and v[0] == "var" and isinstance(v[1], ast.Call) and isinstance(v[1].func, (ast.Name, ast.Attribute)):
+                # an instance of a class of the library derived from threading.local (``class _Active(threading.local)``; ``_ACTIVE = _Active()``)
+                kc_ = repo.resolve_class(m, v[1].func)
+                is_tl = kc_ is not None and any(b_.split(".")[-1] == "local" for k2_ in kc_.mro() for b_ in k2_.external_bases())
+            if is_tl:
                 n += 1
                 scoped = _thread_local_is_scoped(m, name)
                 if scoped:
